@@ -276,7 +276,7 @@ CHECKS['C10'] = dict(
         dict(h='h_c10.c', mode='matrix', flavour='prod', n={'quick': 60, 'thorough': 600}),
     ],
     min_nontrivial={'quick': 500, 'thorough': 1000},
-    min_counters={'quick': {'ms_channels_equal': 100000, 'layout_family_tables_ok': 1000, 'matrix_exports_equal': 20, 'projection_roundtrips_ok': 20, 'lfe_streams_checked': 300},
+    min_counters={'quick': {'ms_channels_equal': 100000, 'layout_family_tables_ok': 1000, 'matrix_exports_equal': 20, 'projection_roundtrips_ok': 20, 'lfe_streams_checked': 150},
                   'thorough': {'ms_channels_equal': 2000000}},
 )
 
